@@ -97,6 +97,15 @@ CHECKS["C14"] = dict(
     note="Objective tolerances reflect curve_fit's absolute gradient tolerance and SLSQP's absolute ftol; perturbation optimality is necessary, not global optimality.",
     design="7/C14",
 )
+CHECKS["C09"] = dict(
+    technique="property-based testing (Hypothesis): metamorphic relation (row permutation, also after a preceding fit) plus differential oracles against stand-alone fits, the slicer applied by the harness and a fresh dependence-function fit",
+    text="Generated truth models (2-D, 3-D chain/star), data 300-20000 rows drawn by the harness' inverse Rosenblatt transform (sorted / shuffled / rounded), to-be-fitted models with all three slicers "
+         "and per-dimension fit descriptions (MLE, EW lsq/wlsq) that differ between dimensions; first fit and re-fit. fit(data) and fit(permuted data) must agree in marginal parameters, interval "
+         "observations (as multisets), per-interval estimates and dependence parameters; data_intervals must be exactly the slicer's rows inside the reported boundaries; per-interval estimates equal "
+         "a stand-alone fit with that dimension's own method/weights; dependence parameters equal a fresh function fitted to (reference, estimate). One known finding (PointsPerInterval cuts through ties).",
+    note="Optimiser noise tolerances 1e-4 (1e-9 for closed-form families); documented RuntimeErrors must occur for both row orders alike.",
+    design="7/C09",
+)
 NOT_YET = {}
 
 def main():
